@@ -506,6 +506,24 @@ impl<E: Elem> World<E> {
             let _g = enter(Ctx::Work);
             E::make()
         };
+        if which >= 6 {
+            // the `[x; <usize expr>]` form with a plain Copy value (the form's own contract asks for no more)
+            let r = lib(|| {
+                let b = if which == 6 { box_arr![7u32; 6].to_vec() } else { box_arr![9u32; 1].to_vec() };
+                b
+            });
+            cx.cov(&[OpKind::BoxArrMacro as u64, which as u64, r.is_err() as u64]);
+            match r {
+                Ok(v) => {
+                    let want: Vec<u32> = if which == 6 { vec![7; 6] } else { vec![9; 1] };
+                    if cx.checks.c15 && v != want {
+                        fail("C15-contents", format!("box_arr![x; n] form {which} built {v:?}"));
+                    }
+                }
+                Err(p) => on_panic(cx, "box_arr!", p),
+            }
+            return;
+        }
         let r = lib(|| match which {
             0 => {
                 let b: Box<GenericArray<E, generic_array::typenum::U0>> = box_arr![];
@@ -515,14 +533,12 @@ impl<E: Elem> World<E> {
             2 => Bx::from(box_arr![mk(), mk(), mk()]),
             3 => Bx::from(box_arr![mk(), mk(), mk(), mk(), mk(),]),
             4 => Bx::from(box_arr![mk(); U4]),
-            5 => Bx::from(box_arr![mk(); U7]),
-            6 => Bx::from(box_arr![mk(); 6]),
-            _ => Bx::from(box_arr![mk(); 1]),
+            _ => Bx::from(box_arr![mk(); U7]),
         });
         cx.cov(&[OpKind::BoxArrMacro as u64, which as u64, r.is_err() as u64]);
         match r {
             Ok(bx) => {
-                let want = [0, 1, 3, 5, 4, 7, 6, 1][which as usize];
+                let want = [0, 1, 3, 5, 4, 7][which as usize];
                 if cx.checks.c15 && bx.len() != want {
                     fail("C15-contents", format!("box_arr! form {which} built length {} instead of {want}", bx.len()));
                 }
